@@ -55,6 +55,14 @@ var props = map[string]*propSpec{
 		QuickBudget:    50 * time.Second,
 		ThoroughBudget: 15 * time.Minute,
 	},
+	"C03": {
+		Level: "exploration",
+		Rule: "one run = configuration x 2-5 bystander RPCs (free-running, or parked in flight behind a gate) x 1-2 disturbers drawn from {handler error, unknown service/method, malformed method name, started after shutdown, cancelled, expired, caller never reads, handler never reads, invalid strings} x schedule; the disturbance is left to settle completely, then the bystanders must finish as planned, the tunnel must be up and a fresh RPC must succeed; " +
+			"non-trivial = a disturber RPC was issued while bystanders were in flight; distinct = distinct schedule digests",
+		Families:       []famPlan{{Family: "bystander", Weight: 3}, {Family: "bystander", Weight: 1, Param: map[string]int{"nonutf8": 1, "disturber": 9}}},
+		QuickBudget:    50 * time.Second,
+		ThoroughBudget: 15 * time.Minute,
+	},
 	"C04": {
 		Level: "fault_enumeration",
 		Rule: "per baseline (seeded configuration x workload of 1-5 RPCs in assorted phases x schedule) the fault-free run reports its N carrier frames; then each of 6 termination causes (channel Close, cancel / expiry of the opening context, Stop, GracefulStop+Stop, carrier failure) is injected at frame boundary k (thorough: every k in 1..N; quick: a stratified sample) and the run is driven to final quiescence (all timers fired); plus fully random placements; " +
